@@ -22,10 +22,10 @@ namespace hist {
 static const int P = 10;  // client slots
 
 enum Op { H_NEW, H_NEWTREE, H_LOAD, H_COPY, H_INCREF, H_DECREF, H_IDECREF, H_PUSH, H_PUSH_MOVE, H_SET, H_REPLACE, H_GET, H_MAP_ADD, H_ADD_CHUNK,
-          H_TAG_SET, H_TAG_GET, H_TAG_BUILD, H_SERIALIZE, H_SIZE, H_DESCRIBE, H_BORROW, H_RESET_HANDLE, H_MAP_ADD_MOVE, H_CHUNK_MOVE, H_TAG_SET_MOVE, H_COUNT };
+          H_TAG_SET, H_TAG_GET, H_TAG_BUILD, H_SERIALIZE, H_SIZE, H_DESCRIBE, H_BORROW, H_RESET_HANDLE, H_MAP_ADD_MOVE, H_CHUNK_MOVE, H_TAG_SET_MOVE, H_FAULT_NEXT, H_COUNT };
 static inline const char* op_name(int o) {
   static const char* n[] = {"new", "newtree", "load", "copy", "incref", "decref", "intermediate_decref", "push", "push_move", "set", "replace", "get", "map_add", "add_chunk",
-                            "tag_set", "tag_get", "tag_build", "serialize", "size", "describe", "borrow", "reset_handle", "map_add_move", "add_chunk_move", "tag_set_move"};
+                            "tag_set", "tag_get", "tag_build", "serialize", "size", "describe", "borrow", "reset_handle", "map_add_move", "add_chunk_move", "tag_set_move", "fault_next"};
   return o < H_COUNT ? n[o] : "?";
 }
 
@@ -54,9 +54,13 @@ struct Interp {
   bool shared_seen = false, container_died_child_survived = false, child_died_container_survived = false, multi_block_release = false;
   std::string trace;           // "op(args)->result;" for the failure message
   std::string stop_prop;       // stop interpreting at the first finding for this property
+  int pending_fault = 0;       // >0: the next op runs with its k-th allocator request refused (tagging allocator only)
+  bool op_refused = false;     // the allocator refused a request during the current op
+  size_t faulted_ops = 0;
 
   Interp() { for (int i = 0; i < P; i++) slot[i] = -1; }
 
+  bool refused_now() const { return use_va && va::g.refused_fault > 0; }
   void flag(const char* prop, const std::string& m) { if (findings.size() < 4) findings.push_back({prop, m + "  [after: " + trace.substr(trace.size() > 300 ? trace.size() - 300 : 0) + "]"}); }
   bool failed_for(const std::string& prop) const { for (auto& f : findings) if (f.prop == prop) return true; return false; }
 
@@ -219,6 +223,18 @@ struct Interp {
   void step(uint8_t opb, uint8_t a, uint8_t b, uint8_t c) {
     int op = opb % H_COUNT;
     steps++;
+    op_refused = false;
+    if (op == H_FAULT_NEXT) { if (use_va) pending_fault = 1 + a % 6; return; }
+    // ops that give a client reference away with cbor_move must not run starved: a refused call would lose the reference
+    bool armed = pending_fault > 0 && use_va && op != H_PUSH_MOVE && op != H_MAP_ADD_MOVE && op != H_CHUNK_MOVE && op != H_TAG_SET_MOVE;
+    if (armed) { va::g.refused_fault = 0; va::g.fail_at = (int64_t)va::g.requests + pending_fault - 1; }
+    pending_fault = 0;
+    step_inner(op, a, b, c);
+    if (armed) { op_refused = va::g.refused_fault > 0; va::g.refused_fault = 0; va::reset_faults(); if (op_refused) faulted_ops++; }
+    check_invariant(op_name(op));
+  }
+
+  void step_inner(int op, uint8_t a, uint8_t b, uint8_t c) {
     const char* nm = op_name(op);
     uint64_t v = ((uint64_t)a << 16) | ((uint64_t)b << 8) | c;
     switch (op) {
@@ -247,7 +263,7 @@ struct Interp {
           case 20: it = LC(cbor_build_bool(b & 1)); leaf.type = 7; leaf.width = 0; leaf.value = 20 + (b & 1); break;
           default: it = LC(cbor_new_null()); leaf.type = 7; leaf.width = 0; leaf.value = 22; break;
         }
-        if (!it) { flag("C04", "builder returned NULL without an allocation being refused"); return; }
+        if (!it) { if (!refused_now()) flag("C04", "builder returned NULL without an allocation being refused"); break; }
         if (leaf.type <= 3 && !indef) type = leaf.type; else if (leaf.type == 7) type = 7;
         int id = add_node(it, type, indef, cap, leaf);
         nodes[id].client = 1; slot[s] = id; effective++;
@@ -259,17 +275,17 @@ struct Interp {
         uint8_t prog[6] = {a, b, c, (uint8_t)(a ^ 0x5a), (uint8_t)(b + 17), (uint8_t)(c * 3)};
         tp::Built t; bool ok;
         ok = tp::build(prog, sizeof prog, t, nullptr, 12);   // (harness containers allocate here, so this window is not bypass-checked)
-        if (!ok) { flag("C04", "tree construction failed without an allocation being refused"); return; }
+        if (!ok) { if (!refused_now()) flag("C04", "tree construction failed without an allocation being refused"); break; }
         cbor_item_t* root = t.item;
         if (op == H_LOAD) {
           unsigned char* buf = nullptr; size_t len = 0;
           size_t w = LC(cbor_serialize_alloc(root, &buf, &len));
           LCV(cbor_decref(&root));
-          if (!buf) { flag("C04", "serialize_alloc failed"); return; }
+          if (!buf) { if (!refused_now()) flag("C04", "serialize_alloc failed"); break; }
           struct cbor_load_result res;
           root = LC(cbor_load(buf, w, &res));
           LCV(_cbor_free(buf));
-          if (!root) { flag("C03", "load of serialized tree failed"); return; }
+          if (!root) { if (!refused_now()) flag("C03", "load of serialized tree failed"); break; }
         }
         std::map<cbor_item_t*, int> seen;
         int id = import(root, seen);
@@ -280,7 +296,7 @@ struct Interp {
       case H_COPY: {
         int s = free_slot(); int src = pick_slot(a); if (s < 0 || src < 0 || !complete(slot[src])) return;
         cbor_item_t* cp = LC(cbor_copy(nodes[slot[src]].item));
-        if (!cp) { flag("C04", "cbor_copy returned NULL without an allocation being refused"); return; }
+        if (!cp) { if (!refused_now()) flag("C04", "cbor_copy returned NULL without an allocation being refused"); break; }
         std::map<cbor_item_t*, int> seen;
         int id = import(cp, seen);
         nodes[id].client = 1; slot[s] = id; effective++;
@@ -329,7 +345,7 @@ struct Interp {
         else if (op == H_SET) ok = LC(cbor_array_set(arr.item, idx, nodes[B].item));
         else ok = LC(cbor_array_replace(arr.item, idx, nodes[B].item));
         reallocs_seen += (use_va ? va::g.reallocs : ar::g.reallocs) - before;
-        if (ok != predict) flag("C12", std::string(nm) + "(index " + std::to_string(idx) + ", size " + std::to_string(size) + ", " + (arr.indef ? "indefinite" : "capacity " + std::to_string(arr.cap)) + ") returned " + (ok ? "true" : "false") + ", the list model says " + (predict ? "true" : "false"));
+        if (ok != predict && !(refused_now() && !ok)) flag("C12", std::string(nm) + "(index " + std::to_string(idx) + ", size " + std::to_string(size) + ", " + (arr.indef ? "indefinite" : "capacity " + std::to_string(arr.cap)) + ") returned " + (ok ? "true" : "false") + ", the list model says " + (predict ? "true" : "false"));
         if (ok) {
           // follow what the call reported: an accepted store at idx < size replaces, otherwise appends
           if (idx < size) { int old = arr.out[idx]; nodes[A].out[idx] = B; nodes[B].in++; nodes[old].in--; maybe_die(old); }
@@ -369,7 +385,7 @@ struct Interp {
         if (moving) { ok = LC(cbor_map_add(m.item, (struct cbor_pair){cbor_move(nodes[K].item), cbor_move(nodes[V].item)})); nodes[K].client--; nodes[V].client--; slot[sk] = -1; slot[sv] = -1; }
         else ok = LC(cbor_map_add(m.item, pr));
         reallocs_seen += (use_va ? va::g.reallocs : ar::g.reallocs) - before;
-        if (ok == full) flag("C12", std::string("map_add on a ") + (m.indef ? "indefinite" : "definite") + " map of size " + std::to_string(size) + "/" + std::to_string(m.cap) + " returned " + (ok ? "true" : "false"));
+        if (ok == full && !(refused_now() && !ok)) flag("C12", std::string("map_add on a ") + (m.indef ? "indefinite" : "definite") + " map of size " + std::to_string(size) + "/" + std::to_string(m.cap) + " returned " + (ok ? "true" : "false"));
         if (ok) { nodes[A].out.push_back(K); nodes[A].out.push_back(V); nodes[K].in++; nodes[V].in++; }
         effective++;
         note("map_add(s" + std::to_string(sa) + ",s" + std::to_string(sk) + ",s" + std::to_string(sv) + ")=" + (ok ? "T" : "F"));
@@ -386,7 +402,7 @@ struct Interp {
         if (op == H_CHUNK_MOVE) { ok = want == 2 ? LC(cbor_bytestring_add_chunk(nodes[A].item, cbor_move(nodes[B].item))) : LC(cbor_string_add_chunk(nodes[A].item, cbor_move(nodes[B].item))); nodes[B].client--; slot[sb] = -1; }
         else ok = want == 2 ? LC(cbor_bytestring_add_chunk(nodes[A].item, nodes[B].item)) : LC(cbor_string_add_chunk(nodes[A].item, nodes[B].item));
         reallocs_seen += (use_va ? va::g.reallocs : ar::g.reallocs) - before;
-        if (!ok) flag("C12", "add_chunk refused on a chunked string");
+        if (!ok && !refused_now()) flag("C12", "add_chunk refused on a chunked string");
         if (ok) { nodes[A].out.push_back(B); nodes[B].in++; }
         effective++;
         note("add_chunk(s" + std::to_string(sa) + ",s" + std::to_string(sb) + ")");
@@ -438,7 +454,7 @@ struct Interp {
       case H_TAG_BUILD: {
         int sb = pick_slot(b); int s = free_slot(); if (sb < 0 || s < 0) return;
         cbor_item_t* t = LC(cbor_build_tag(v, nodes[slot[sb]].item));
-        if (!t) { flag("C04", "cbor_build_tag returned NULL"); return; }
+        if (!t) { if (!refused_now()) flag("C04", "cbor_build_tag returned NULL"); break; }
         ref::Node leaf; leaf.type = 6; leaf.value = v;
         int id = add_node(t, 6, false, 0, leaf);
         nodes[id].client = 1; nodes[id].out.push_back(slot[sb]); nodes[slot[sb]].in++; slot[s] = id; effective++;
@@ -482,7 +498,6 @@ struct Interp {
         break;
       }
     }
-    check_invariant(nm);
   }
 
   void run(const uint8_t* prog, size_t len, size_t max_steps = 400) {
